@@ -8,6 +8,10 @@
   VERIF_CRASH_ARM    "<qualname substring>" of the function at whose first line counting starts
                      (default "TaskRunner.run"; "*" = from interpreter start)
   VERIF_RUNNER_LOG   append "runner <script> <pid>" when this interpreter was started on a job script
+  VERIF_DELAY        "<seed>:<probability>:<max milliseconds>[:<countfile>]"  preemption injection: at line events
+                     of VERIF_DELAY_FILES (default tokens.py, locking.py, ipc.py, connectors/local.py) the running
+                     thread sleeps up to <max ms> with the given probability - what an operating system may do to any
+                     thread between two statements; the number of injected delays is appended to <countfile> at exit
   VERIF_CERT         path prefix: a reporter thread periodically writes a quiescence certificate
                      (<prefix>.<pid>.json) of a scheduler process
 
@@ -75,6 +79,39 @@ if _spec and hasattr(sys, "monitoring"):
 
     _mon.register_callback(_TOOL, _mon.events.LINE, _on_line)
     _mon.set_events(_TOOL, _mon.events.LINE)
+
+_delay = os.environ.get("VERIF_DELAY")
+if _delay and hasattr(sys, "monitoring"):
+    import atexit
+    import random as _random
+    import time as _time
+
+    _dparts = _delay.split(":")
+    _drng = _random.Random(int(_dparts[0]) ^ os.getpid())
+    _dprob = float(_dparts[1])
+    _dmax = float(_dparts[2]) / 1000.0
+    _dcount = _dparts[3] if len(_dparts) > 3 else None
+    _dfiles = tuple(os.environ.get("VERIF_DELAY_FILES", "experimaestro/tokens.py,experimaestro/locking.py,experimaestro/ipc.py,experimaestro/connectors/local.py").split(","))
+    _dmon = sys.monitoring
+    _DTOOL = 5
+    _dstate = {"n": 0, "lines": 0}
+    try:
+        _dmon.use_tool_id(_DTOOL, "verif-delay")
+
+        def _on_dline(code, line):
+            if not code.co_filename.endswith(_dfiles):
+                return _dmon.DISABLE
+            _dstate["lines"] += 1
+            if _drng.random() < _dprob:
+                _dstate["n"] += 1
+                _time.sleep(_drng.random() * _dmax)
+
+        _dmon.register_callback(_DTOOL, _dmon.events.LINE, _on_dline)
+        _dmon.set_events(_DTOOL, _dmon.events.LINE)
+        if _dcount:
+            atexit.register(lambda: _append(_dcount, f"{os.getpid()} {_dstate['n']} {_dstate['lines']}"))
+    except ValueError:
+        pass
 
 _cert = os.environ.get("VERIF_CERT")
 if _cert:
